@@ -324,7 +324,43 @@ fn approx_lift_case(cx: &mut Ctx, n: usize, compression: f64) {
     }
 }
 
+/// `group_by_key()` followed by a CLASSIC `combine_values` whose values are the groups themselves
+/// (`Count` over `Vec<V>`): a legal, well-typed chain that must NOT be lifted. Oracle only.
+fn gbk_then_classic_combine_case(cx: &mut Ctx, rows: Vec<(i64, i64)>, parts: usize) {
+    let mut keys: Vec<i64> = rows.iter().map(|r| r.0).collect();
+    keys.sort();
+    keys.dedup();
+    let want: Vec<(i64, u64)> = keys.iter().map(|k| (*k, 1u64)).collect();
+    let run = |par: Option<usize>| -> Result<Vec<(i64, u64)>, String> {
+        let rows = rows.clone();
+        match guarded(move || {
+            let p = Pipeline::default();
+            let out = from_vec(&p, rows).group_by_key().combine_values(ironbeam::Count);
+            match par { None => out.collect_seq(), Some(n) => out.collect_par(None, Some(n)) }
+        }) {
+            Ok(Ok(mut v)) => { v.sort(); Ok(v) }
+            Ok(Err(e)) => Err(format!("Err({e})")),
+            Err(m) => Err(format!("panic: {m}")),
+        }
+    };
+    let idx = cx.case(format!("ORACLE-ONLY gbk-then-classic-combine rows={} parts={parts}", rows.len()), "-".into(), rows.len() >= 2);
+    cx.count("plan:gbk-then-classic-combine");
+    for (mode, r) in [("seq", run(None)), ("par", run(Some(parts)))] {
+        if r.as_ref() != Ok(&want) {
+            cx.oracle_fail(idx, "gbk-then-classic-combine-wrong", format!("mode={mode} got={r:?} want={want:?}"));
+        }
+    }
+}
+
 pub fn run(cx: &mut Ctx) {
+    gbk_then_classic_combine_case(cx, vec![(1, 10), (2, 20), (1, 30)], 2);
+    gbk_then_classic_combine_case(cx, vec![], 3);
+    for i in 0..cx.budget(20, 300) {
+        let n = cx.rng.below(12 + i % 5);
+        let rows: Vec<(i64, i64)> = (0..n).map(|_| (cx.rng.range(0, 3), cx.rng.range(-5, 5))).collect();
+        let parts = 1 + cx.rng.below(5);
+        gbk_then_classic_combine_case(cx, rows, parts);
+    }
     for (n, c) in [(12usize, 100.0), (300, 20.0), (2000, 20.0), (5000, 50.0)] { approx_lift_case(cx, n, c); }
     // corpus: the shapes the property names
     let op = |code, arg, kp, vo, rs, cost| OpDesc { code, arg, kp, vo, rs, cost, defaulting: false };
